@@ -125,7 +125,9 @@ func TestC17(t *testing.T) {
 		}
 		maxN := drawCap(t, sc)
 		var keys []string
-		switch pickU(t, "c17fam", 12) {
+		switch pickU(t, "c17fam", 13) {
+		case 12:
+			keys, c.Gen = genStepless(t), "stepless"
 		case 10, 11:
 			keys, c.Gen = genPeriodic(t, maxN), "periodic"
 		case 0:
